@@ -72,7 +72,7 @@ MOD = ('def modboom():\n    raise ValueError("modboom")\n\n\nclass ModBadRepr(ob
 DIMS = [
     ('kind', list(KINDS)),
     ('pos', ['middle', 'first', 'last']),
-    ('pre', ['none', 'want', 'ml', 'bare']),
+    ('pre', ['none', 'want', 'ml', 'bare', 'reprwant']),
     ('verbose', [0, 1, 2, 3]),
 ]
 FILE_LINE_RE = re.compile(r'File "[^"]*", line (\d+),.*wrt source file')
@@ -90,6 +90,10 @@ def build(kind, pos, pre):
         lines += ['>>> print("w")', 'w']
     elif pre == 'ml':
         lines += ['>>> y = [1,', '...      2]']
+    elif pre == 'reprwant':
+        # an earlier passing part checks a value whose repr needs a name the doctest itself defines (gone once the run
+        # is over and its namespace is cleared)
+        lines += ['>>> fmt = "<%s>"', '>>> class R:', '...     def __repr__(self):', '...         return fmt % "r"', '>>> R()', '<r>']
     if pos in ('middle', 'last') and not (pre == 'bare' and pos == 'last'):
         lines += ['>>> a = 1']
     fail_at = len(lines)
